@@ -4,7 +4,7 @@ Host frames: 00 00 FF FF FF LENlo LENhi LCS <D6 code data..> DCS 00 ; answers D7
 Fault script as in chip_pn53x (Fault(at, kind, arg)); additional kind "comm" (arg = 32-bit communication
 status word of InCommRF / TgCommRF).
 """
-from .chip_pn53x import ACK, NAK, Fault, FrameTransport, damage  # noqa: F401
+from .chip_pn53x import ACK, NAK, FrameTransport, damage
 
 CMDNAME = {
     0x00: "InSetRF", 0x02: "InSetProtocol", 0x04: "InCommRF", 0x06: "SwitchRF", 0x10: "MaintainFlash",
